@@ -114,7 +114,7 @@ def run(ck):
         rows = os.path.join(ck.dir, "rows-%d.ndjson" % s)
         env = dict(VERIF_OUT=rows, VERIF_SEED=str(s))
         if not th:
-            env.update(VERIF_CRSTRIDE="4", VERIF_W3="30", VERIF_NCR="3000", VERIF_NBIG="2000", VERIF_NSCALE="400", VERIF_NUSE="100")
+            env.update(VERIF_CRSTRIDE="4", VERIF_W3="30", VERIF_NCR="3000", VERIF_NBIG="2000", VERIF_NSCALE="600", VERIF_NUSE="100")
         else:
             env.update(VERIF_CRSTRIDE="1", VERIF_W3="60", VERIF_NCR="20000", VERIF_NBIG="20000", VERIF_NSCALE="6000", VERIF_NUSE="700")
             if i > 0:     # the exhaustive part does not depend on the seed: only the sampled rows are repeated
